@@ -318,7 +318,19 @@ fn distribution_checks(ctx: &Ctx, stats: &mut Stats) -> Vec<Failure> {
         vec![0.7, 0.2, 0.1],
         vec![1e-3, 1.0],
         vec![5.0, 1.0, 1.0, 1.0, 1.0, 1.0],
+        // skewed vectors one of whose entries is exactly the uniform probability 1/n
+        vec![1.0, 2.0, 3.0],
+        vec![1.0, 4.0, 3.0, 4.0],
+        vec![3.0, 1.0, 2.0, 2.0, 2.0],
     ];
+    // generated small-integer weight vectors (length 2..7, weights 1..6), a function of the seed
+    let mut vectors = vectors;
+    let extra = if ctx.tier == crate::runner::Tier::Quick { 24 } else { 200 };
+    for k in 0..extra {
+        let h = mix2(ctx.seed, 7_000 + k);
+        let len = 2 + (h % 6) as usize;
+        vectors.push((0..len).map(|i| 1.0 + ((h >> (8 + 4 * i)) % 6) as f64).collect());
+    }
     let mut summary = Vec::new();
     for (vi, w) in vectors.iter().enumerate() {
         for method in [Method::Sampled, Method::External] {
@@ -405,7 +417,7 @@ pub fn prop() -> Prop {
         id: "C10",
         check,
         describe,
-        rule: "three parts. (a) categorical sampler: generated weight vectors (length 1..8, zeros, sums off one by 1e-15) x variates (random, or +-{0,3e-16,1e-9,1e-6} around a cumulative boundary) fed through a mock generator into the production sampler; the index must be the one whose cumulative interval contains the variate (either neighbour within 1e-12). (b) draw-log conformance: generated games x {Sampled, External, Full} x parameters x T in 1..12 x {1, 2..8 threads} with the production samplers running on per-site seeded generators; the reference model replays the recorded draws and must expect exactly the recorded set of (kind, infoset, pass) with the recorded weights (chance: declared normalised weights within 1e-12; player: the non-updating player's current strategy within 1e-6) and reach the same strategies. (c) fixed-seed distribution tests: chi-square over >= 20000 chance draws on five weight vectors, martingale statistic over external player draws, alarm beyond p < 1e-10. Non-trivial = (a) vectors with >= 3 entries, (b) a chance infoset met at two or more nodes in one pass; distinct by case content.",
+        rule: "three parts. (a) categorical sampler: generated weight vectors (length 1..8, zeros, sums off one by 1e-15) x variates (random, or +-{0,3e-16,1e-9,1e-6} around a cumulative boundary) fed through a mock generator into the production sampler; the index must be the one whose cumulative interval contains the variate (either neighbour within 1e-12). (b) draw-log conformance: generated games x {Sampled, External, Full} x parameters x T in 1..12 x {1, 2..8 threads} with the production samplers running on per-site seeded generators; the reference model replays the recorded draws and must expect exactly the recorded set of (kind, infoset, pass) with the recorded weights (chance: declared normalised weights within 1e-12; player: the non-updating player's current strategy within 1e-6) and reach the same strategies. (c) fixed-seed distribution tests: chi-square over >= 20000 chance draws on eight fixed and 24 (thorough 200) seed-generated small-integer weight vectors (several with an entry exactly 1/n), martingale statistic over external player draws, alarm beyond p < 1e-10. Non-trivial = (a) vectors with >= 3 entries, (b) a chance infoset met at two or more nodes in one pass; distinct by case content.",
         max_len: 900,
         cases_quick: 50_000,
         cases_thorough: 800_000,
